@@ -6,7 +6,8 @@
    [one_adjacent cf f]: face f has exactly one adjacent cell. *)
 From Coq Require Import List ZArith Bool Arith Lia.
 Import ListNotations.
-From PP Require Import Model.C21 Proofs.C21.
+From Coq Require Import Permutation.
+From PP Require Import Model.C21 Proofs.C21 Model.C21_ext Proofs.C21_ext.
 Open Scope Z_scope.
 
 (* The executable well-formedness check the tie evaluates on every real grid implies the
@@ -112,6 +113,81 @@ Theorem C21_divergence_error :
   forall cf dim, dim < 1 -> divergence cf dim = Err ValueErr.
 Proof. exact div_err. Qed.
 Print Assumptions C21_divergence_error.
+
+(* numpy's default argsort is not stable: with repeated face numbers np.argsort(faces) may be
+   ANY sorting permutation.  The result of signs_and_cells_of_boundary_faces is the same for
+   every permutation IA of the positions used in its place (the model's [signs_cells] is the
+   instance IA = stable argsort); the later argsorts act on distinct keys. *)
+Theorem C21_signs_and_cells_any_argsort :
+  forall nf nc cf faces IA, wf nf nc cf ->
+    Permutation IA (seq 0 (length faces)) ->
+    (forall f, In f faces -> 0 <= f < Z.of_nat nf) ->
+    ((forall f, In f faces -> one_adjacent cf f) ->
+       exists sgn ci, signs_cells_perm cf faces IA = Ok (sgn, ci) /\
+         length sgn = length faces /\ length ci = length faces /\
+         forall j c v, (j < length faces)%nat -> In (nth j faces 0, c, v) cf ->
+                       nth j ci 0 = c /\ nth j sgn 0 = v) /\
+    ((exists f, In f faces /\ ~ one_adjacent cf f) -> signs_cells_perm cf faces IA = Err ValueErr).
+Proof. exact signs_cells_perm_spec. Qed.
+Print Assumptions C21_signs_and_cells_any_argsort.
+
+Theorem C21_signs_and_cells_is_instance :
+  forall cf faces, signs_cells cf faces = signs_cells_perm cf faces (argsort faces).
+Proof. exact signs_cells_is_perm. Qed.
+Print Assumptions C21_signs_and_cells_is_instance.
+
+(* Face numbers as numpy reads them: a number outside [-num_faces, num_faces) raises IndexError
+   (before anything else); numbers in [-num_faces, 0) denote face f + num_faces; then as above. *)
+Theorem C21_signs_and_cells_index_handling :
+  forall nf nc cf faces, wf nf nc cf ->
+    ((exists f, In f faces /\ ~ (- Z.of_nat nf <= f < Z.of_nat nf)) ->
+       signs_cells_idx nf cf faces = Err2 IndexErr2) /\
+    ((forall f, In f faces -> - Z.of_nat nf <= f < Z.of_nat nf) ->
+       let fw := map (wrap nf) faces in
+       ((forall f, In f fw -> one_adjacent cf f) ->
+          exists sgn ci, signs_cells_idx nf cf faces = Ok2 (sgn, ci) /\
+            length sgn = length faces /\ length ci = length faces /\
+            forall j c v, (j < length faces)%nat -> In (nth j fw 0, c, v) cf ->
+                          nth j ci 0 = c /\ nth j sgn 0 = v) /\
+       ((exists f, In f fw /\ ~ one_adjacent cf f) -> signs_cells_idx nf cf faces = Err2 ValueErr2)).
+Proof. exact signs_cells_idx_spec. Qed.
+Print Assumptions C21_signs_and_cells_index_handling.
+
+(* set_periodic_map: a valid map (two rows, not empty, all entries face numbers) is stored and
+   clears the domain-boundary tag of exactly the listed faces; every other map is rejected with
+   ValueError and nothing is stored.  (So after update_boundary_face_tag and set_periodic_map the
+   tagged faces are the one-cell faces that are not periodic: C21_boundary_faces.) *)
+Theorem C21_periodic_map :
+  forall tag nf pm, length tag = nf ->
+    (pm_valid nf pm ->
+       exists t, set_periodic tag nf pm = (Ok2 t, true) /\ length t = nf /\
+         forall f, (f < nf)%nat ->
+           nth f t false = nth f tag false && negb (existsb (Z.eqb (Z.of_nat f)) (concat pm))) /\
+    (~ pm_valid nf pm -> set_periodic tag nf pm = (Err2 ValueErr2, false)).
+Proof. exact set_periodic_spec. Qed.
+Print Assumptions C21_periodic_map.
+
+(* Non-vacuity of the extension theorems on the same incidence. *)
+Example C21_ext_nonvacuous :
+  let cf := [(0, 0, -1); (1, 0, 1); (3, 0, -1); (5, 0, 1);
+             (1, 1, -1); (2, 1, 1); (4, 1, -1); (6, 1, 1)] in
+  Permutation [2; 0; 1]%nat (seq 0 3) /\
+  signs_cells_perm cf [6; 0; 6] [2; 0; 1]%nat = Ok ([1; -1; 1], [1; 0; 1]) /\
+  signs_cells_idx 7 cf [-1; 0; 3] = Ok2 ([1; -1; -1], [1; 0; 0]) /\
+  signs_cells_idx 7 cf [0; 7] = Err2 IndexErr2 /\
+  signs_cells_idx 7 cf [0; -6] = Err2 ValueErr2 /\
+  pm_valid 7 [[0]; [2]] /\
+  set_periodic [true; false; true; true; true; true; true] 7 [[0]; [2]]
+    = (Ok2 [false; false; false; true; true; true; true], true) /\
+  ~ pm_valid 7 [[0]; [7]] /\
+  set_periodic [true; false; true; true; true; true; true] 7 [[0]; [7]] = (Err2 ValueErr2, false).
+Proof.
+  cbn zeta. split.
+  - apply Permutation_sym. exact (Permutation_cons_append [1; 2]%nat 0%nat).
+  - repeat split; try (vm_compute; reflexivity).
+    + intros H. cbn in H. intuition lia.
+    + intros (_ & _ & H). specialize (H 7). cbn in H. lia.
+Qed.
 
 (* Non-vacuity: the incidence of pp.CartGrid([2, 1]) (7 faces, 2 cells) is well-formed;
    face 1 is internal, all others have one adjacent cell; the queries on it. *)
